@@ -186,7 +186,12 @@ class OrderedSet(collections.abc.MutableSet):
 
     def __eq__(self, other):
         if not isinstance(other, OrderedSet):
-            return self == OrderedSet(iter(other))
+            try:
+                other = OrderedSet(iter(other))
+            except TypeError:
+                return NotImplemented
+            
+            return self == other
         
         if not len(self) == len(other):
             return False
